@@ -1458,15 +1458,14 @@ impl Machine {
                 Instruction::Delay(dst, src, time) => {
                     let i = self.get_stack(src as i64);
                     let t = self.get_stack(time as i64);
-                    let delaysize_i =
-                        unsafe { self.delaysizes_pos_stack.last().unwrap_unchecked() };
-
-                    let size_in_samples = unsafe {
-                        *self
-                            .get_fnproto(func_i)
-                            .delay_sizes
-                            .get_unchecked(*delaysize_i)
-                    };
+                    // `delay_sizes` has one entry per `Delay` instruction of the function,
+                    // in bytecode order: the entry of this delay is found by its position.
+                    let fnproto = self.get_fnproto(func_i);
+                    let delaysize_i = fnproto.bytecodes[..pcounter]
+                        .iter()
+                        .filter(|inst| matches!(inst, Instruction::Delay(..)))
+                        .count();
+                    let size_in_samples = fnproto.delay_sizes[delaysize_i];
                     #[cfg(mimium_verif)]
                     self.verif_state_event("delay", size_in_samples + 2);
                     let mut ringbuf = self.get_current_state().get_as_ringbuffer(size_in_samples);
